@@ -104,6 +104,26 @@ def coreTL : List Target → Bool
   | t :: ts => coreT t && coreTL ts
 end
 
+mutual
+/-- the rewriter leaves a target of the fragment alone: the expressions inside of it are simple -/
+theorem instrT_core (cfg : Cfg) : (t : Target) → coreT t = true → instrT cfg t = t
+  | .name x, _ => by simp [instrT]
+  | .tuple ts, h => by simp only [coreT] at h; simp [instrT, instrTL_core cfg ts h]
+  | .list ts, h => by simp only [coreT] at h; simp [instrT, instrTL_core cfg ts h]
+  | .starred t, h => by simp only [coreT] at h; simp [instrT, instrT_core cfg t h]
+  | .attr e a, h => by
+    simp only [coreT, Bool.and_eq_true] at h
+    simp [instrT, instrE_simple cfg e h.2]
+  | .sub e i, h => by
+    simp only [coreT, Bool.and_eq_true] at h
+    simp [instrT, instrE_simple cfg e h.1.1.2, instrE_simple cfg i h.2]
+theorem instrTL_core (cfg : Cfg) : (ts : List Target) → coreTL ts = true → instrTL cfg ts = ts
+  | [], _ => by simp [instrTL]
+  | t :: ts, h => by
+    simp only [coreTL, Bool.and_eq_true] at h
+    simp [instrTL, instrT_core cfg t h.1, instrTL_core cfg ts h.2]
+end
+
 /-- evaluating an expression the rewriter leaves alone -/
 theorem simE_simple (c : Ctx W HS) (lib : LibSpec c) (e : Expr) (h : coreE e = true) (hs : simpleE e = true)
     (hst : ∀ x ∈ e.stores, c.scoped x) : RelM c (evalE c.envI e) (evalE c.envR e) := by
